@@ -12,5 +12,6 @@ patch -p1 -s < "$P"
 cd /verif && VERIF_EVIDENCE_DIR=$S/.evidence VERIF_REPLAY_DIR=/tmp/seed_replays VERIF_REPO=$S ./check $PROP --tier $TIER > /tmp/seed_run_$$.out 2>&1; rc=$?
 rm -rf $S
 echo "SEED $(basename $(dirname $P))/$(basename $P) prop=$PROP exit=$rc"
-grep -E "VIOLATION|KNOWN-FINDING|INCONCLUSIVE|FAILED obligation|inconclusive|OK:" /tmp/seed_run_$$.out | cut -c1-300 | head -8
+grep -E "KNOWN-FINDING|INCONCLUSIVE|FAILED obligation|inconclusive|OK:" /tmp/seed_run_$$.out | cut -c1-300 | head -7
+grep -E "^VIOLATION" /tmp/seed_run_$$.out | cut -c1-300 | head -2
 rm -f /tmp/seed_run_$$.out
